@@ -20,6 +20,7 @@ func init() {
 			"R2 the DWR sender writes one request, built once before the loop from the settings' identity, at most MaxRetransmits+1 times, each retransmission after a RetransmitInterval timer; its acknowledgement case returns without closing the connection, and every path leaving the loop by exhaustion closes the connection; " +
 			"R3 the DWA handler forwards to the acknowledgement channel only on the ResultCode == Success edge and with a non-blocking select; " +
 			"R4 the DWR handler builds m.Answer(Success) with Origin-Host/Origin-Realm from the settings and writes it to the connection the request came from, and sm.New registers it for DWR. " +
+			"R2 also: the acknowledgement channel has a slot of one and is drained before each DWR is sent (an answer that arrives before the sender waits is neither lost nor attributed to a later request); R4 also: the DWR handler answers every request that passed DWR.Parse, on every path. " +
 			"Not decided: wall-clock periods, answer patterns as histories.",
 		Rules: map[string]string{
 			"R1": "watchdog: DWR only on the WatchdogInterval timer case; started only after a successful handshake with EnableWatchdog",
